@@ -466,6 +466,30 @@ Proof.
   intros A B C D E F [s1 s2 s3 s4 s5 s6 s7 s8]. constructor; rewrite ?A, ?B, ?C, ?D; auto.
 Qed.
 
+(* the critical section of a request that has been taken back: the chunk goes back to the connection window, which the
+   server's ledger never saw go down *)
+Lemma cs_conn_cw (c : cconn) pb id : cc_connWindow (cs_conn c pb id) = cl_i32 (cc_connWindow c - cs_n c pb).
+Proof. unfold cs_conn. destruct (cs_end c pb); reflexivity. Qed.
+
+Lemma send_back_Sim (c : cconn) L id pb :
+  cl_pend_get (cc_pending c) id = Some pb -> Sim c L -> LB L -> Sim (apply (MSendBack id) c) L.
+Proof.
+  intros G S B. destruct (send_Sim c L id false pb G S B) as [_ S2]. cbn [items apply] in S2. rewrite G in S2.
+  cbn [ledger_out flat_map lrun fold_left] in S2. cbn [apply]. rewrite G. unfold send_back. cbv zeta.
+  assert (S3 : Sim (if (0 <? cs_n c pb)%Z then cl_add_window (cs_conn c pb id) 0 (cs_n c pb) else cs_conn c pb id) L).
+  { destruct (0 <? cs_n c pb)%Z eqn:NP; [|exact S2]. apply Z.ltb_lt in NP.
+    pose proof (cs_n_facts c pb) as [N1 N2]. destruct (N2 NP) as [_ N3].
+    destruct S as [s1 s2 s3 s4 s5 s6 s7 s8]. destruct B as [B1 _].
+    assert (CW : cl_i32 (cc_connWindow (cs_conn c pb id) + cs_n c pb) = cc_connWindow c).
+    { rewrite cs_conn_cw. rewrite (cl_i32_id (cc_connWindow c - cs_n c pb)) by (unfold MAXW in *; flia).
+      replace (cc_connWindow c - cs_n c pb + cs_n c pb)%Z with (cc_connWindow c) by flia. apply cl_i32_id. unfold MAXW in *. flia. }
+    destruct S2 as [t1 t2 t3 t4 t5 t6 t7 t8]. unfold cl_add_window, cl_signal_window. cbn [N.eqb].
+    constructor; cc_cbn; auto. rewrite CW. exact s3. }
+  set (c3 := if (0 <? cs_n c pb)%Z then _ else _) in *.
+  destruct (cl_pend_get (cc_pending c3) id); [|exact S3].
+  apply (pending_sub_Sim c3); try reflexivity; [cc_cbn; intro p; apply pend_del_In | cc_cbn; apply pend_del_NoDup, (sim_nodup _ _ S3) | exact S3].
+Qed.
+
 Lemma recv_data_fields (c : cconn) fr hr :
   cc_streamWindow (recv_data c fr hr) = cc_streamWindow c /\ cc_connWindow (recv_data c fr hr) = cc_connWindow c /\
   cc_pending (recv_data c fr hr) = cc_pending c /\ cc_nextID (recv_data c fr hr) = cc_nextID c /\
@@ -530,6 +554,8 @@ Proof.
     + intros p HP. apply (pend_put_In _ _ _ s4) in HP. destruct HP as [->|[HP _]]; [rewrite RI, RW; apply s7; exact HI | apply s7; exact HP].
   - (* MSend *)
     destruct V as (pb & G & _). apply (send_Sim c L id wr pb); assumption.
+  - (* MSendBack *)
+    destruct V as (pb & G & _). split; [exact I|]. apply (send_back_Sim c L id pb); assumption.
   - (* MEncSync *)
     split; [exact I|]. cbn [apply]. destruct (negb _); [|exact S]. apply (Sim_same c); try reflexivity; auto.
   - (* MNextID *)
